@@ -101,7 +101,7 @@ let oz o = match o with Some z -> dec_of_z z | None -> "ub"
 
 let coercions (v : value) : string =
   let (m, e) = to_dbl v in
-  String.concat "," [ (if to_bool v then "1" else "0"); oz (to_int v); oz (to_uint v); oz (to_i64 v); oz (to_u64 v);
+  String.concat "," [ (if is_null v then "1" else "0"); (if to_bool v then "1" else "0"); oz (to_int v); oz (to_uint v); oz (to_i64 v); oz (to_u64 v);
                       "d" ^ dec_of_z m ^ "_" ^ dec_of_z e; hex_of_bytes (to_str v) ]
 
 let eq_matrix (vs : value list) : string =
@@ -113,7 +113,7 @@ let eq_matrix (vs : value list) : string =
    mode `model` prints only these, so the comparison with the harness ties the transcription to the code *)
 let m_coercions (hp : heap) (h : handle) : string =
   let (m, e) = m_to_dbl hp h in
-  String.concat "," [ (if m_to_bool hp h then "1" else "0"); oz (m_to_int hp h); oz (m_to_uint hp h); oz (m_to_i64 hp h);
+  String.concat "," [ (if m_is_null hp h then "1" else "0"); (if m_to_bool hp h then "1" else "0"); oz (m_to_int hp h); oz (m_to_uint hp h); oz (m_to_i64 hp h);
                       oz (m_to_u64 hp h); "d" ^ dec_of_z m ^ "_" ^ dec_of_z e; hex_of_bytes (m_to_str hp h) ]
 
 let m_eq_matrix (hp : heap) (hs : handle list) : string =
